@@ -110,6 +110,23 @@ TEXT_IDENTITY = ("branch", "parse", "index", "to_owned", "to_string", "from", "i
                  "unwrap", "expect", "get", "RangeTo", "RangeFrom", "Range", "Add", "Sub", "tuple", "closure", "tmp", "Some", "Ok")
 
 
+def override_list_is_handed_over_as_parsed(prog, rep, R):
+    """C19.j — "command-line overrides win, in the order given": the list of `-C` options is what clap parsed, element for element,
+    when the builder applies it (`set_override` makes the last value of a key the effective one).  Nothing but the clap-derived
+    parser writes `PasFmtConfiguration.overrides` or borrows it mutably: a `retain` / `dedup` / `sort` / `truncate` between parsing and
+    applying changes which of two values for one key takes effect, or hides an ill-typed value from validation."""
+    PC = "pasfmt_orchestrator::command_line::PasFmtConfiguration"
+    acc = [a for a in prog.field_accesses(PC, "overrides") if a[3].startswith("write") or a[3] == "refmut"]
+    reads = [a for a in prog.field_accesses(PC, "overrides") if a[3] in ("ref", "read")]
+    bad = sorted({a[0].npath for a in acc if "clap_builder::derive::" not in a[0].npath})
+    rep.check(not bad, R, "override-list-immutable-after-parsing",
+              "the list of -C overrides is modified after parsing, in %s: dropping, reordering or merging entries changes which value of a repeated key takes effect "
+              "(the builder lets the last one win) and which values are validated" % [short(x) for x in bad],
+              where=("%s:%d" % (prog.body(bad[0]).file, prog.body(bad[0]).line)) if bad else None,
+              instance={"mutable_accesses": sorted(short(a[0].npath) for a in acc), "readers": sorted({short(a[0].npath) for a in reads})})
+    rep.floor(R, "readers of the override list", len({a[0].npath for a in reads}), 2)
+
+
 def override_text_is_taken_as_written(prog, rep, R):
     """C19.i — "equal configurations however specified" and "unknown keys are rejected": the key and the value of a `-C KEY=VALUE`
     override reach the configuration builder as the text on either side of the first `=`, through slicing and copying only.  A key
@@ -189,6 +206,7 @@ def check_c19(prog, rep, tier, cfg):
     configuration_is_always_resolved(prog, rep, "C19.g")
     explicit_config_file_must_be_a_file(prog, rep, "C19.h")
     override_text_is_taken_as_written(prog, rep, "C19.i")
+    override_list_is_handed_over_as_parsed(prog, rep, "C19.j")
     # ---------------------------------------------------------------- C19.a layering
     R = "C19.a"
     b = prog.body(PC + "get_config_object_from_file")
